@@ -67,6 +67,41 @@ ShapeSites ==
 ErrorSites == {"prop", "proparr", "qual", "qualarr", "emb", "key",
                "keyuntyped", "obj", "ref"}
 
+(* Child shapes of the response element.  DTD:                              *)
+(*   IMETHODRESPONSE: ERROR, or an optional IRETURNVALUE followed by any     *)
+(*                    number of PARAMVALUE                                   *)
+(*   METHODRESPONSE:  ERROR, or an optional RETURNVALUE followed by any      *)
+(*                    number of PARAMVALUE                                   *)
+(*   PARAMVALUE (VALUE | VALUE.REFERENCE | VALUE.ARRAY | VALUE.REFARRAY |     *)
+(*               CLASSNAME | INSTANCENAME | CLASS | INSTANCE |                *)
+(*               VALUE.NAMEDINSTANCE)?      NAME: any CIM name               *)
+(* Kind o_pv = one PARAMVALUE child in every DTD-allowed form: position      *)
+(* among the children (site), class of its NAME (ty: the names a client     *)
+(* gives a meaning to - including the names of the sibling elements - or     *)
+(* any other name), child element kind (cls).  ERROR / IRETURNVALUE /        *)
+(* RETURNVALUE children themselves are the kinds r_*, o_irv, o_struct,       *)
+(* m_misc.                                                                   *)
+PvPos == {"only",      \* the only child of the response element
+          "first",     \* before the return element (which is present)
+          "last",      \* after the return element and all other children
+          "forret"}    \* in place of the return element, other children kept
+PvNames == {"IRETURNVALUE", "RETURNVALUE", "ERROR", "EndOfSequence",
+            "EnumerationContext", "QueryResultClass", "other"}
+PvKids == {"none", "VALUE", "VALUE.REFERENCE", "VALUE.ARRAY",
+           "VALUE.REFARRAY", "CLASSNAME", "INSTANCENAME", "CLASS", "INSTANCE",
+           "VALUE.NAMEDINSTANCE"}
+PvApplicable(shape, d) ==
+  /\ shape # "export"          \* EXPMETHODRESPONSE (ERROR | IRETURNVALUE?)
+  /\ d.site \in (IF shape = "void" THEN {"only"}
+                 ELSE IF shape \in PullShapes \cup {"method"} THEN PvPos
+                 ELSE {"only", "first", "last"})
+  /\ d.ty \in (IF shape = "method" THEN {"RETURNVALUE", "ERROR", "other"}
+               ELSE {"IRETURNVALUE", "ERROR", "other"}
+                    \cup (IF shape \in PullShapes
+                          THEN {"EndOfSequence", "EnumerationContext"} ELSE {})
+                    \cup (IF shape = "pull_query"
+                          THEN {"QueryResultClass"} ELSE {}))
+
 (* defect kinds: stage, parameter alphabets, shapes they make sense for     *)
 KindTab ==
      "c_type" :> [stage |-> "ctype",
@@ -128,6 +163,11 @@ KindTab ==
                  "VALUE.NAMEDINSTANCE", "VALUE.INSTANCEWITHPATH",
                  "VALUE.NAMEDOBJECT", "UNKNOWN"},
         shapes |-> Shapes]
+  @@ "o_pv" :> [stage |-> "optype",
+        sites |-> PvPos,
+        tys |-> PvNames,
+        clss |-> PvKids,
+        shapes |-> Shapes \ {"export"}]
   @@ "o_struct" :> [stage |-> "optype",
         sites |-> {""},
         tys |-> {""},
@@ -288,7 +328,8 @@ KindTab ==
                 "uint64", "sint64", "real32", "real64"},
         clss |-> {"dec", "neg", "hex", "inf", "ninf", "nan", "e999", "oor",
                  "empty", "ws", "frac", "alpha", "plus", "usc", "udig",
-                 "long", "junk"},
+                 "long", "junk", "big", "negbig", "hexbig", "hexlong",
+                 "fracbig", "expbig", "expneg"},
         shapes |-> Shapes]
   @@ "v_shape" :> [stage |-> "value",
         sites |-> {"prop", "proparr", "qual", "qdval", "retval",
@@ -354,8 +395,9 @@ KnownDefect(d) ==
 Applicable(shape, d, hasErr) ==
   /\ KnownDefect(d)
   /\ shape \in KindTab[d.k].shapes
-  /\ d.site = "" \/ d.site \in ShapeSites[shape]
-               \/ (hasErr /\ d.site \in ErrorSites)
+  /\ IF d.k = "o_pv" THEN PvApplicable(shape, d)
+     ELSE d.site = "" \/ d.site \in ShapeSites[shape]
+                     \/ (hasErr /\ d.site \in ErrorSites)
   /\ d.k \in {"o_irv", "o_struct"} => shape \notin {"method", "export"}
 
 WellFormedCell(shape, defs) ==
